@@ -700,6 +700,10 @@ func runCase(cs *Case, ci int, pty *ptyPair, em *emu, home string) (alive bool) 
 						srcs = append(srcs, boundSrc{a.S, src, nil})
 					}
 					logj(map[string]any{"ev": "api", "c": cs.ID, "s": si, "what": "History.Add", "arg": a.S, "sources": dumpSources(), "hname": hname()})
+				case "unbind":
+					// the application takes a sequence out of a keymap (Config.Binds is a public map)
+					delete(rl.Config.Binds[a.S], string(unhex(a.H)))
+					logj(map[string]any{"ev": "api", "c": cs.ID, "s": si, "what": "delete(Config.Binds)", "arg": a.S})
 				case "rebind":
 					if parts := strings.SplitN(a.S, "|", 2); len(parts) == 2 {
 						rl.Config.Bind(parts[0], string(unhex(a.H)), parts[1], a.N == 1)
